@@ -286,7 +286,7 @@ func runMulti(props []string, repo, verif string) int {
 			}
 			per := map[string]int{}
 			for _, o := range r.Obls {
-				if o.Status != Note {
+				if o.Status != Note || o.Located {
 					per[o.Rule]++
 				}
 			}
